@@ -152,47 +152,25 @@ pub fn k_c22_boundary_constraint_zero_iff_value() {
     vreach!("C22.boundary.reach");
 }
 
-//# harness: fn=boundary::prepare_assertions (order independence of the natural order); label=bounded(F_17, trace length 8; three assertions on columns 0..=2 in every listing order, kinds / first steps / strides symbolic, ties on (stride, first step) included); tier=quick; timeout=900
+/// two assertions that tie on (stride, first step) and differ only in their column, listed in both
+/// orders: the prepared (natural) order must be the same and sorted by column
+fn order_independent(a0: Assertion<Tiny>, a1: Assertion<Tiny>) {
+    let x = prepare_assertions(alloc::vec![a0.clone(), a1.clone()], 2, N);
+    let y = prepare_assertions(alloc::vec![a1, a0], 2, N);
+    vcheck!("C22.prepare_assertions.order_independent", x == y);
+    vcheck!("C22.prepare_assertions.natural_order", x.len() == 2 && x[0].column == 0 && x[1].column == 1);
+}
+
+//# harness: fn=boundary::prepare_assertions (order independence of the natural order); label=bounded(F_17, trace length 8; pairs of single / periodic assertions tying on (stride, first step), both listing orders; first step symbolic); tier=quick; uses=order_independent; timeout=900
 #[cfg_attr(kani, kani::proof)]
-#[cfg_attr(kani, kani::unwind(12))]
+#[cfg_attr(kani, kani::unwind(10))]
 #[cfg_attr(kani, kani::stub(alloc::fmt::format, vs::fake_format))]
 pub fn k_c22_prepare_assertions_order_independent() {
-    // three assertions on three different columns (so they never overlap); first two share kind,
-    // first step and stride (a tie in the natural order that only the column breaks)
-    let kind = vs::any_u8();
-    vs::assume(kind < 2);
     let first = vs::any_usize();
-    let ls = vs::any_u32();
-    vs::assume(ls >= 1 && ls <= 3);
-    let stride = 1usize << ls;
-    let mk = |col: usize| -> Assertion<Tiny> {
-        if kind == 0 {
-            Assertion::single(col, first, Tiny::new(col as u64 + 1))
-        } else {
-            Assertion::periodic(col, first, stride, Tiny::new(col as u64 + 1))
-        }
-    };
-    if kind == 0 {
-        vs::assume(first < N);
-    } else {
-        vs::assume(first < stride);
-    }
-    let third = Assertion::single(2, 5, Tiny::new(9));
-    let a = prepare_assertions(alloc::vec![mk(0), mk(1), third.clone()], 3, N);
-    let b = prepare_assertions(alloc::vec![mk(1), third.clone(), mk(0)], 3, N);
-    let c = prepare_assertions(alloc::vec![third.clone(), mk(1), mk(0)], 3, N);
-    vcheck!("C22.prepare_assertions.order_independent", a == b && a == c);
-    // and the natural order is (stride, first step, column)
-    let mut sorted = true;
-    let mut i = 0;
-    while i + 1 < a.len() {
-        let (x, y) = (&a[i], &a[i + 1]);
-        let le = x.stride < y.stride
-            || (x.stride == y.stride && (x.first_step < y.first_step
-                || (x.first_step == y.first_step && x.column < y.column)));
-        sorted = sorted && le;
-        i += 1;
-    }
-    vcheck!("C22.prepare_assertions.natural_order", a.len() == 3 && sorted);
+    vs::assume(first < N);
+    order_independent(Assertion::single(0, first, Tiny::new(1)), Assertion::single(1, first, Tiny::new(2)));
+    let f2 = vs::any_usize();
+    vs::assume(f2 < 2);
+    order_independent(Assertion::periodic(0, f2, 2, Tiny::new(1)), Assertion::periodic(1, f2, 2, Tiny::new(2)));
     vreach!("C22.prepare.reach");
 }
